@@ -294,10 +294,10 @@ class Evaluator:
                 return name
             if 'Ctor' in kind and path.endswith('Option::None'):
                 return None
-            if kind in ('AssocConst', 'Const') or 'Const' in kind:
-                return self.const_value(r['path'])
             if 'Ctor' in kind:
                 return ('ctor', path)
+            if kind in ('AssocConst', 'Const') or 'Const' in kind:
+                return self.const_value(r['path'])
             if kind in ('Fn', 'AssocFn'):
                 return ('fn', r['path'])
         raise Unanalysable('path %s' % (r,), e)
